@@ -2047,7 +2047,7 @@ def categorical_field_constructor(session, group, name, nformat, key,
     key_ = val.validate_and_normalize_categorical_key('key', key)
     key_values = [v for k, v in key_.items()]
     key_names = [k for k, v in key_.items()]
-    DataWriter.write(field, 'key_values', key_values, len(key_values), 'int8')
+    DataWriter.write(field, 'key_values', key_values, len(key_values), nformat)
     DataWriter.write(field, 'key_names', key_names, len(key_names), h5py.special_dtype(vlen=str))
 
 
